@@ -198,6 +198,9 @@ pub struct Spec<'a, T> {
     /// the Debug text depends on the hash order of the run (column indices of a freshly fitted
     /// vocabulary): it is compared, but a difference is reported without quoting it
     pub opaque_debug: bool,
+    /// a public call that advances the value (fit_with on an incremental model ...): the history
+    /// round trip -> mutate -> round trip must end in a value that observes like mutate(original)
+    pub mutate: Option<&'a dyn Fn(&T) -> T>,
 }
 
 #[derive(Default, Clone, Debug)]
@@ -217,6 +220,10 @@ pub struct Counters {
     pub fixed_point_skipped: u64,
     pub documented_refusals: u64,
     pub guard_checks: u64,
+    pub mutation_histories: u64,
+    pub history_states: u64,
+    pub history_transitions: u64,
+    pub histories: u64,
 }
 
 /// panic payload: an instance of a further data variant could not be built (not a verdict)
@@ -470,6 +477,31 @@ pub fn round_trip<T: Serialize + DeserializeOwned>(o: &mut Out, spec: &Spec<T>, 
             Err(p) => o.viol("second_round_trip.serialize.panic", fname, format!("re-serialising the restored value panicked: {}", p)),
         }
     }
+    // generation history with a mutation in between: x -> rt -> mutate -> rt  vs  mutate(x)
+    if let Some(mutate) = spec.mutate {
+        match guarded(|| {
+            let m0 = mutate(v);
+            ((spec.observe)(&m0), spec.debug.map(|d| d(&m0)), m0)
+        }) {
+            Err(p) => o.machinery(&format!("mutating the ORIGINAL value panicked: {}", p)),
+            Ok((obs_m0, dbg_m0, m0)) => {
+                for f in BINARY_FORMATS {
+                    let fname = f.name();
+                    o.cnt.mutation_histories += 1;
+                    let r = guarded(|| -> Result<T, String> {
+                        let g1: T = f.de(&f.ser(v)?)?;
+                        let g1m = mutate(&g1);
+                        f.de(&f.ser(&g1m)?)
+                    });
+                    match r {
+                        Ok(Ok(g2)) => compare(o, spec, &m0, &g2, &obs_m0, dbg_m0.as_deref(), fname, "after_mutation_second_generation."),
+                        Ok(Err(e)) => o.viol("after_mutation_second_generation.round_trip_error", fname, format!("round trip -> mutate -> round trip failed: {}", e)),
+                        Err(p) => o.viol("after_mutation_second_generation.panic", fname, format!("round trip -> mutate -> round trip panicked: {}", p)),
+                    }
+                }
+            }
+        }
+    }
     if o.sample.is_none() {
         o.sample = Some(json!({
             "entry": o.entry, "instance": o.instance,
@@ -555,7 +587,7 @@ pub fn dbg_pretty<T: std::fmt::Debug>(x: &T) -> String {
 impl<'a, T: std::fmt::Debug> Spec<'a, T> {
     /// type with Debug but without (usable) PartialEq
     pub fn plain(observe: &'a dyn Fn(&T) -> Ob) -> Spec<'a, T> {
-        Spec { eq: None, observe, debug: Some(dbg_of::<T>), debug_mode: DebugMode::Exact, fixed_point: Ok(()), json: false, nontrivial: true, expect_ser_refusal: false, opaque_debug: false }
+        Spec { eq: None, observe, debug: Some(dbg_of::<T>), debug_mode: DebugMode::Exact, fixed_point: Ok(()), json: false, nontrivial: true, expect_ser_refusal: false, opaque_debug: false, mutate: None }
     }
 }
 impl<'a, T: std::fmt::Debug + PartialEq> Spec<'a, T> {
@@ -579,6 +611,10 @@ impl<'a, T> Spec<'a, T> {
         self.json = true;
         self
     }
+    pub fn mutating(mut self, m: &'a dyn Fn(&T) -> T) -> Self {
+        self.mutate = Some(m);
+        self
+    }
     pub fn opaque_debug(mut self) -> Self {
         self.opaque_debug = true;
         self
@@ -590,6 +626,101 @@ impl<'a, T> Spec<'a, T> {
     pub fn no_debug(mut self, why: &'static str) -> Self {
         self.debug_mode = DebugMode::Off(why);
         self
+    }
+}
+
+// ---------------------------------------------------------------------------------------------
+// generation histories for types with a post-deserialisation repair API (serde(skip) fields)
+// ---------------------------------------------------------------------------------------------
+#[derive(Clone, Copy, Debug, PartialEq)]
+pub enum Step {
+    /// serialise and deserialise (the skipped field is lost)
+    RoundTrip,
+    /// the public repair / re-attachment call
+    Repair,
+    /// use the value (transform): compared with the reference model at this point of the history
+    Use,
+}
+
+pub struct Repairable<'a, T> {
+    /// re-attaches what serialisation cannot carry
+    pub repair: &'a dyn Fn(&mut T),
+    /// Ok(observation) or Err(error text)
+    pub use_it: &'a dyn Fn(&T) -> Result<Ob, String>,
+    /// the documented refusal of an unrepaired restored value
+    pub guard_error: String,
+}
+
+/// Explores EVERY history of length <= `depth` over {RoundTrip, Repair, Use} from the original
+/// value, for one format, stepping the real value and the reference model (one bit: "is the
+/// function attached?") in lock-step. Reference: RoundTrip clears the bit, Repair sets it, Use
+/// leaves it; Use must give the original's observation when the bit is set and the documented
+/// guard error when it is clear.
+pub fn explore_generations<T: Serialize + DeserializeOwned + Clone>(o: &mut Out, f: Format, original: &T, spec: &Repairable<T>, depth: usize) {
+    let fname = f.name();
+    let expected = match guarded(|| (spec.use_it)(original)) {
+        Ok(Ok(ob)) => ob,
+        Ok(Err(e)) => o.machinery(&format!("using the ORIGINAL value failed: {}", e)),
+        Err(p) => o.machinery(&format!("using the ORIGINAL value panicked: {}", p)),
+    };
+    // a state = (value, attached bit, history)
+    // breadth-first, so the first history reported for a failure shape is a shortest one
+    let mut stack: std::collections::VecDeque<(T, bool, Vec<Step>)> = std::collections::VecDeque::from(vec![(original.clone(), true, Vec::new())]);
+    let mut reported: std::collections::BTreeSet<String> = Default::default();
+    while let Some((val, attached, hist)) = stack.pop_front() {
+        o.cnt.history_states += 1;
+        if hist.len() == depth {
+            o.cnt.histories += 1;
+            continue;
+        }
+        for step in [Step::RoundTrip, Step::Repair, Step::Use] {
+            o.cnt.history_transitions += 1;
+            let mut h = hist.clone();
+            h.push(step);
+            let hs = h.iter().map(|s| format!("{:?}", s)).collect::<Vec<_>>().join(" -> ");
+            match step {
+                Step::RoundTrip => match guarded(|| f.ser(&val).and_then(|b| f.de::<T>(&b))) {
+                    Ok(Ok(next)) => stack.push_back((next, false, h)),
+                    Ok(Err(e)) => {
+                        if reported.insert(format!("rt{}", e)) {
+                            o.viol("generations.round_trip_error", fname, format!("history [{}]: round trip failed: {}", hs, e));
+                        }
+                    }
+                    Err(p) => o.viol("generations.round_trip_panic", fname, format!("history [{}]: round trip panicked: {}", hs, p)),
+                },
+                Step::Repair => {
+                    let mut next = val.clone();
+                    match guarded(|| (spec.repair)(&mut next)) {
+                        Ok(()) => stack.push_back((next, true, h)),
+                        Err(p) => o.viol("generations.repair_panic", fname, format!("history [{}]: the repair call panicked: {}", hs, p)),
+                    }
+                }
+                Step::Use => {
+                    let got = guarded(|| (spec.use_it)(&val));
+                    let shape = match (&got, attached) {
+                        (Err(p), _) => Some(("generations.use_panic", format!("panicked: {}", p))),
+                        (Ok(Ok(ob)), true) => expected.diff(ob).map(|(_, what)| ("generations.repaired_generation_differs_from_original", format!("the function is attached but the result differs from the original's: {}", what))),
+                        (Ok(Err(e)), true) => Some(("generations.repaired_generation_refuses", format!("the function is attached but the value refuses: {}", e))),
+                        (Ok(Err(e)), false) if *e == spec.guard_error => None,
+                        (Ok(Err(e)), false) => Some(("generations.unrepaired_generation_wrong_error", format!("unrepaired restored value fails with `{}` instead of `{}`", e, spec.guard_error))),
+                        (Ok(Ok(ob)), false) => Some((
+                            "generations.unrepaired_generation_answers_without_function",
+                            match expected.diff(ob) {
+                                Some((_, what)) => format!("a restored value whose function was NOT supplied again in this generation answers instead of refusing with `{}`, and answers differently from the original: {}", spec.guard_error, what),
+                                None => format!("a restored value whose function was NOT supplied again in this generation answers instead of refusing with `{}`", spec.guard_error),
+                            },
+                        )),
+                    };
+                    if let Some((sig, what)) = shape {
+                        // one report per failure shape: the first (= a shortest) history that shows it
+                        if reported.insert(sig.to_string()) {
+                            o.viol(sig, fname, format!("history [{}]: {}", hs, what));
+                        }
+                    }
+                    stack.push_back((val.clone(), attached, h));
+                }
+            }
+        }
     }
 }
 
